@@ -39,6 +39,70 @@ pub proof fn lemma_view_bounds(x: U256Muldiv)
 {
 }
 
+/// Q^n
+pub open spec fn qpow(n: nat) -> int decreases n { if n == 0 { 1 } else { Q() * qpow((n - 1) as nat) } }
+pub proof fn lemma_qpow_unfold(n: nat) requires n >= 1 ensures qpow(n) == Q() * qpow((n - 1) as nat) { }
+pub proof fn lemma_qpow_vals() ensures qpow(0) == 1, qpow(1) == Q(), qpow(2) == Q2(), qpow(3) == Q3(), qpow(4) == Q4()
+{
+    assert(qpow(0) == 1) by(compute); assert(qpow(1) == 0x1_0000_0000_0000_0000int) by(compute);
+    assert(qpow(2) == 0x1_0000_0000_0000_0000_0000_0000_0000_0000int) by(compute);
+    assert(qpow(3) == 0x1_0000_0000_0000_0000_0000_0000_0000_0000_0000_0000_0000_0000int) by(compute);
+    assert(qpow(4) == 0x1_0000_0000_0000_0000_0000_0000_0000_0000_0000_0000_0000_0000_0000_0000_0000_0000int) by(compute);
+}
+pub proof fn lemma_qpow_add(a: nat, b: nat) ensures qpow(a + b) == qpow(a) * qpow(b) decreases a
+{
+    if a == 0 { assert(1 * qpow(b) == qpow(b)) by(nonlinear_arith); } else { lemma_qpow_add((a - 1) as nat, b); assert(qpow(a + b) == Q() * qpow((a - 1 + b) as nat));
+        assert(Q() * (qpow((a - 1) as nat) * qpow(b)) == (Q() * qpow((a - 1) as nat)) * qpow(b)) by(nonlinear_arith); }
+}
+pub proof fn lemma_qpow_high(n: nat) requires n >= 4 ensures qpow(n) == Q4() * qpow((n - 4) as nat), qpow((n - 4) as nat) >= 1
+{
+    lemma_qpow_add(4, (n - 4) as nat); lemma_qpow_vals(); lemma_qpow_pos((n - 4) as nat);
+}
+pub proof fn lemma_qpow_pos(n: nat) ensures qpow(n) >= 1 decreases n
+{
+    if n > 0 { lemma_qpow_pos((n - 1) as nat); assert(Q() * qpow((n - 1) as nat) >= 1) by(nonlinear_arith) requires qpow((n - 1) as nat) >= 1, Q() >= 1; }
+}
+impl U256Muldiv {
+    /// number of significant words (what num_words returns)
+    pub open spec fn num_words_spec(&self) -> usize {
+        if self.items[3] != 0 { 4 } else if self.items[2] != 0 { 3 } else if self.items[1] != 0 { 2 } else if self.items[0] != 0 { 1 } else { 0 }
+    }
+}
+pub proof fn lemma_pv_full(x: U256Muldiv, m: int) requires m == x.num_words_spec(), ensures partial_view(x, m) == x.view(), partial_view(x, 4) == x.view()
+{
+    assert(0 * Q() == 0 && 0 * Q2() == 0 && 0 * Q3() == 0) by(nonlinear_arith);
+}
+pub proof fn lemma_pv_step(x: U256Muldiv, i: int) requires 0 <= i < 4 ensures partial_view(x, i + 1) == partial_view(x, i) + x.items[i] as int * qpow(i as nat)
+{
+    lemma_qpow_vals(); assert(x.items[0] as int * 1 == x.items[0] as int) by(nonlinear_arith);
+}
+/// one column of the schoolbook multiplication: word p of the accumulator absorbs x*y + carry
+pub proof fn lemma_mul_step(res: U256Muldiv, old_res: U256Muldiv, p: int, x: int, y: int, z: int, k: int, t: int)
+    requires 0 <= p < 4, t == x * y + z + k, 0 <= t, z == old_res.items[p] as int, res.items@ == old_res.items@.update(p, (t % Q()) as u64),
+    ensures res.view() + (t / Q()) * qpow((p + 1) as nat) == old_res.view() + (x * y + k) * qpow(p as nat),
+{
+    let q = Q(); lemma_qpow_vals(); lemma_qpow_unfold((p + 1) as nat);
+    vstd::arithmetic::div_mod::lemma_fundamental_div_mod(t, q); vstd::arithmetic::div_mod::lemma_mod_bound(t, q);
+    let w = t % q; let h = t / q; let e = qpow(p as nat);
+    assert(res.items[p] as int == w);
+    assert(forall|c: int| 0 <= c < 4 && c != p ==> res.items@[c] == old_res.items@[c]);
+    assert(res.view() == old_res.view() - z * e + w * e) by {
+        assert(z * 1 == z && w * 1 == w) by(nonlinear_arith);
+        if p == 0 { } else if p == 1 { } else if p == 2 { } else { }
+    }
+    assert(h * (q * e) == (q * h) * e) by(nonlinear_arith);
+    assert((x * y + k) * e == t * e - z * e) by(nonlinear_arith) requires t == x * y + z + k;
+    assert(t * e == (q * h) * e + w * e) by(nonlinear_arith) requires t == q * h + w;
+}
+pub proof fn lemma_set_zero_word(res: U256Muldiv, old_res: U256Muldiv, p: int, k: int)
+    requires 0 <= p < 4, 0 <= k < Q(), old_res.items[p] == 0, res.items@ == old_res.items@.update(p, k as u64),
+    ensures res.view() == old_res.view() + k * qpow(p as nat),
+{
+    lemma_qpow_vals();
+    assert(forall|c: int| 0 <= c < 4 && c != p ==> res.items@[c] == old_res.items@[c]);
+    assert(res.items[p] as int == k);
+    assert(0 * Q() == 0 && 0 * Q2() == 0 && 0 * Q3() == 0 && k * 1 == k) by(nonlinear_arith);
+}
 pub open spec fn pw2(k: nat) -> int decreases k { if k == 0 { 1 } else { 2 * pw2((k - 1) as nat) } }
 pub proof fn lemma_pw2_pos(k: nat) ensures pw2(k) > 0 decreases k { if k > 0 { lemma_pw2_pos((k - 1) as nat); } }
 pub proof fn lemma_pw2_add(a: nat, b: nat) ensures pw2(a + b) == pw2(a) * pw2(b) decreases a
@@ -163,7 +227,7 @@ impl U256Muldiv {
 //@ end
 
 //@ fn math/u256_math.rs num_words in=/^impl U256Muldiv \{/ -> r
-    ensures r <= 4, forall|k: int| r <= k < 4 ==> self.items[k] == 0, r > 0 ==> self.items[r - 1] != 0,
+    ensures r <= 4, forall|k: int| r <= k < 4 ==> self.items[k] == 0, r > 0 ==> self.items[r - 1] != 0, r == self.num_words_spec(),
 //@ rewrite_rev
 //@ loop 0
         invariant i_rev <= 4, forall|k: int| i_rev <= k < 4 ==> self.items[k] == 0,
@@ -276,8 +340,92 @@ impl U256Muldiv {
     proof { lemma_view_bounds(result); lemma_view_bounds(*self); lemma_view_bounds(other); }
 //@ end
 
-//@ fn math/u256_math.rs mul in=/^impl U256Muldiv \{/ -> r stub
+//@ fn math/u256_math.rs mul in=/^impl U256Muldiv \{/ -> r
     ensures self.view() * other.view() < Q4() ==> r.view() == self.view() * other.view(),
+        // in general: the product truncated to 256 bits
+        exists|d: int| r.view() == self.view() * other.view() + #[trigger] (d * Q4()),
+//@ rewrite_for 2
+//@ inject before /let mut j_it: usize = 0;/
+    let ghost mut gd: int = 0;
+    proof { lemma_qpow_vals(); lemma_view_bounds(*self); lemma_view_bounds(other); lemma_pv_full(*self, m as int); lemma_pv_full(other, n as int);
+            assert(result.view() == 0); assert(self.view() * 0 == 0) by(nonlinear_arith); assert(0 * Q4() == 0) by(nonlinear_arith); }
+//@ loop 0
+        invariant j_it <= n, n <= 4, m <= 4, m == self.num_words_spec(), n == other.num_words_spec(),
+            result.view() == self.view() * partial_view(other, j_it as int) + gd * Q4(),
+            forall|p: int| (if j_it == 0 { 0 } else { j_it + m }) <= p < 4 ==> result.items[p] == 0,
+        decreases n - j_it,
+//@ inject after /let mut k = 0;/
+        let ghost r0 = result; let ghost mut d: int = 0;
+        proof { lemma_qpow_vals(); assert(0 * Q4() == 0) by(nonlinear_arith); assert(partial_view(*self, 0) == 0);
+                assert(0 * other.items[j as int] as int * qpow(j as nat) == 0) by(nonlinear_arith); assert(0 * qpow((0 + j) as nat) == 0) by(nonlinear_arith); }
+//@ loop 1
+            invariant i_it <= m, m <= 4, j < 4, j < n, n <= 4, k < 0x1_0000_0000_0000_0000, m == self.num_words_spec(),
+                result.view() + k as int * qpow((i_it + j) as nat) == r0.view() + partial_view(*self, i_it as int) * other.items[j as int] as int * qpow(j as nat) + d * Q4(),
+                forall|p: int| j + m <= p < 4 ==> result.items[p] == 0,
+            decreases m - i_it,
+//@ inject after /^\s*let y = /
+                let ghost res_before = result; let ghost k_before = k;
+                proof { lemma_qpow_vals(); lemma_qpow_unfold((i + j + 1) as nat);
+                    assert(x * y <= 0xFFFF_FFFF_FFFF_FFFF * 0xFFFF_FFFF_FFFF_FFFF) by(nonlinear_arith) requires 0 <= x <= 0xFFFF_FFFF_FFFF_FFFF, 0 <= y <= 0xFFFF_FFFF_FFFF_FFFF;
+                    lemma_pv_step(*self, i as int);
+                    if i + j >= 4 {
+                        // dropped term and stale carry are multiples of 2^256
+                        lemma_qpow_high((i + j) as nat); lemma_qpow_high((i + j + 1) as nat);
+                        let e = qpow((i + j - 4) as nat); let e1 = qpow((i + j + 1 - 4) as nat);
+                        let xy = x as int * y as int;
+                        lemma_qpow_add(i as nat, j as nat);
+                        assert((partial_view(*self, i as int) + x as int * qpow(i as nat)) * y as int * qpow(j as nat)
+                            == partial_view(*self, i as int) * y as int * qpow(j as nat) + xy * (qpow(i as nat) * qpow(j as nat))) by(nonlinear_arith) requires xy == x as int * y as int;
+                        assert(xy * (Q4() * e) == (xy * e) * Q4()) by(nonlinear_arith);
+                        assert(k as int * (Q4() * e) == (k as int * e) * Q4()) by(nonlinear_arith);
+                        assert(k as int * (Q4() * e1) == (k as int * e1) * Q4()) by(nonlinear_arith);
+                        let d2 = d - xy * e + k as int * e1 - k as int * e;
+                        assert(d2 * Q4() == d * Q4() - (xy * e) * Q4() + (k as int * e1) * Q4() - (k as int * e) * Q4()) by(nonlinear_arith) requires d2 == d - xy * e + k as int * e1 - k as int * e;
+                        d = d2;
+                        assert(result.view() + k as int * qpow((i + 1 + j) as nat) == r0.view() + partial_view(*self, i as int + 1) * other.items[j as int] as int * qpow(j as nat) + d * Q4());
+                    }
+                }
+//@ inject after /^\s*k = t/
+                    proof {
+                        lemma_mul_step(result, res_before, (i + j) as int, x as int, y as int, z as int, k_before as int, t as int);
+                        let xy = x as int * y as int;
+                        lemma_qpow_add(i as nat, j as nat);
+                        assert((partial_view(*self, i as int) + x as int * qpow(i as nat)) * y as int * qpow(j as nat)
+                            == partial_view(*self, i as int) * y as int * qpow(j as nat) + xy * (qpow(i as nat) * qpow(j as nat))) by(nonlinear_arith) requires xy == x as int * y as int;
+                        assert((xy + k_before as int) * qpow((i + j) as nat) == xy * qpow((i + j) as nat) + k_before as int * qpow((i + j) as nat)) by(nonlinear_arith);
+                        assert(k as int == t as int / Q());
+                        assert(result.view() + k as int * qpow((i + 1 + j) as nat) == r0.view() + partial_view(*self, i as int + 1) * other.items[j as int] as int * qpow(j as nat) + d * Q4());
+                    }
+//@ inject before /if j \+ m < NUM_WORDS \{/
+        proof {
+            lemma_qpow_vals(); lemma_pv_full(*self, m as int); lemma_pv_step(other, j as int);
+            let yj = other.items[j as int] as int;
+            assert(self.view() * (partial_view(other, j as int) + yj * qpow(j as nat)) == self.view() * partial_view(other, j as int) + self.view() * yj * qpow(j as nat)) by(nonlinear_arith);
+            if j + m >= 4 {
+                lemma_qpow_high((m + j) as nat);
+                let e = qpow((m + j - 4) as nat);
+                assert(k as int * (Q4() * e) == (k as int * e) * Q4()) by(nonlinear_arith);
+                assert((gd + d - k as int * e) * Q4() == gd * Q4() + d * Q4() - (k as int * e) * Q4()) by(nonlinear_arith);
+                gd = gd + d - k as int * e;
+            } else {
+                assert((gd + d) * Q4() == gd * Q4() + d * Q4()) by(nonlinear_arith);
+                gd = gd + d;
+            }
+        }
+        let ghost res_mid = result;
+//@ inject after /^\s*result\.update_word\(j \+ m,/
+            proof { lemma_set_zero_word(result, res_mid, (j + m) as int, k as int); }
+//@ inject before /^\s*result\s*$/
+    proof {
+        lemma_pv_full(other, n as int); lemma_view_bounds(result); lemma_view_bounds(*self); lemma_view_bounds(other);
+        let p = self.view() * other.view();
+        assert(p >= 0) by(nonlinear_arith) requires self.view() >= 0, other.view() >= 0, p == self.view() * other.view();
+        if p < Q4() {
+            if gd >= 1 { assert(gd * Q4() >= Q4()) by(nonlinear_arith) requires gd >= 1, Q4() > 0; }
+            if gd <= -1 { assert(gd * Q4() <= -Q4()) by(nonlinear_arith) requires gd <= -1, Q4() > 0; }
+            assert(gd == 0); assert(0 * Q4() == 0) by(nonlinear_arith);
+        }
+    }
 //@ end
 
 //@ fn math/u256_math.rs shift_right in=/^impl U256Muldiv \{/ -> r
